@@ -51,6 +51,36 @@ impl JunosLocal {
     }
 }
 
+/// Verification hook (compiled only with `--cfg bgpfu_verif`): same as [`JunosLocal::connect`]
+/// except for the program that is spawned.
+#[cfg(bgpfu_verif)]
+impl JunosLocal {
+    #[allow(missing_docs, clippy::missing_errors_doc)]
+    pub async fn verif_connect(cli_path: &str, cli_args: &[&str]) -> Result<Self, Error> {
+        let mut child = Command::new(cli_path)
+            .stdin(Stdio::piped())
+            .stdout(Stdio::piped())
+            .stderr(Stdio::piped())
+            .args(cli_args)
+            .kill_on_drop(true)
+            .spawn()?;
+        let stdout = child
+            .stdout
+            .take()
+            .ok_or_else(|| io::Error::other("failed to handle for child stdin"))?;
+        let stdin = child
+            .stdin
+            .take()
+            .ok_or_else(|| io::Error::other("failed to handle for child stdin"))?;
+        let handle = Arc::new(child);
+        Ok(Self {
+            handle,
+            stdin,
+            stdout,
+        })
+    }
+}
+
 impl Transport for JunosLocal {
     type SendHandle = Sender;
     type RecvHandle = Receiver;
